@@ -949,5 +949,6 @@ func TestVerifC04Msg(t *testing.T) { vfXSearch(t, "C04", "msg", vfMsgModelName()
 func TestVerifC09Msg(t *testing.T) { vfXSearch(t, "C09", "msg", vfMsgModelName()) }
 func TestVerifC02Msg(t *testing.T) { vfXSearch(t, "C02", "msg", vfMsgModelName()) }
 func TestVerifC08Msg(t *testing.T) { vfXSearch(t, "C08", "msg", vfMsgModelName()) }
+func TestVerifC11Msg(t *testing.T) { vfXSearch(t, "C11", "msg", vfMsgModelName()) }
 func TestVerifC08MsgFault(t *testing.T) { vfXSearch(t, "C08", "msg-fault", vfMsgModelName()+"-fault") }
 func TestVerifC13MsgFault(t *testing.T) { vfXSearch(t, "C13", "msg-fault", vfMsgModelName()+"-fault") }
